@@ -222,6 +222,19 @@ fn seeds_for(e: Endian) -> Vec<Seed> {
         d = d.add_crashpad_info(synth::CrashpadInfo::new(e).add_simple_annotation("a", "b").add_simple_annotation("c", "d").add_module(m1).add_module(m2));
         out.push(finish("crashpad", e, threaded(d, false, 5)));
     }
+    // ---- crashpad info with long values made of two-byte characters, in both alignments: every byte offset up to
+    // 1200 falls inside a character of one of them (a printer that shortens values must cut between characters)
+    {
+        let mut d = new().add_system_info(sysinfo(e, PROCESSOR_ARCHITECTURE_INTEL, P::Linux));
+        let even = "\u{e9}".repeat(600);
+        let odd = format!("x{even}");
+        let m1 = synth::ModuleCrashpadInfo::new(0, e)
+            .add_list_annotation(&odd)
+            .add_simple_annotation("long-even", &even)
+            .add_annotation_object("long-odd", synth::AnnotationValue::String(odd.clone()));
+        d = d.add_crashpad_info(synth::CrashpadInfo::new(e).add_simple_annotation("even", &even).add_simple_annotation("odd", &odd).add_module(m1));
+        out.push(finish("crashpad-long-values", e, threaded(d, false, 5)));
+    }
     // ---- modules with every CodeView kind + misc record, unloaded modules
     {
         let mut d = new().add_system_info(sysinfo(e, PROCESSOR_ARCHITECTURE_AMD64, P::VER_PLATFORM_WIN32_NT));
